@@ -103,6 +103,24 @@ CHECKS = {
         technique="Lean 4 proof over hand-written model + string-for-string correspondence + parse-back search",
         design="6/C16",
     ),
+    "C20": dict(
+        text=("Model/Datasets.lean: _make_data as a function of the generator parameters and of the RECORDED random draws. "
+              "Theorems for all valid parameters (Valid = _check_params), both variants and all possible earlier draws: "
+              "every parameter handed to the RNG lies in its distribution's domain (rng_params_in_domain: 0<p<1, lam>0, "
+              "a,b>0, log arguments >0, covariate p in [0,1]) so the generator returns instead of raising, with a "
+              "kernel-checked counterexample for the uncapped covariate probability; calibration identities (odds of the "
+              "variant draw = ratio; expected sessions / orders / revenue in treatment over control = 1 + the requested "
+              "uplift); users_invariants (user = 0..n-1, variant in {0,1}, sessions >= 1, 0 <= orders <= sessions, revenue "
+              ">= 0 and zero without orders, covariate analogues) from the ranges of the draws; sessions data is the "
+              "explosion of the same users (row count = total sessions, each user in exactly sessions(u) rows, same "
+              "variant, sessions = 1, covariates constant within a user). Tie: every numpy Generator call of the real run "
+              "is recorded and the model recomputes each distribution parameter and each column from the recorded draws; "
+              "search: invariants, determinism across 3 return types, users/sessions agreement, 7-sigma calibration band."),
+        note=NOTE_COMMON + "numpy's Generator (determinism for a seed, ranges of the draws) is trusted; the expectation "
+             "formulas of the four distributions are definitions in the calibration statements; round(2) is a parameter.",
+        technique="Lean 4 proof over hand-written model of the generator as a function of recorded draws + recorded-RNG correspondence",
+        design="6/C20",
+    ),
     "C14": dict(
         text=("Theorems over the Lean definitions regenerated from aggr.py on every run: aggrOf(s1++s2) = aggrOf s1 + "
               "aggrOf s2 for all sample sizes >= 2 in any ordered field, commutativity, associativity, ratio_var/"
